@@ -251,7 +251,7 @@ func main() {
 
 	tPhase := time.Now()
 	rounds := f.N(4, 5)
-	l1sync.Parallel(f.N(20, 200), f.N(4, 6), func(i int) []gen.Case { return runScenario(f.Seed, i, rounds) }, w)
+	l1sync.Parallel(f.N(20, 120), f.N(4, 8), func(i int) []gen.Case { return runScenario(f.Seed, i, rounds) }, w)
 
 	l1sync.Phase("scenarios", tPhase)
 	tPhase = time.Now()
